@@ -1,1 +1,84 @@
+//! Independent WOFF 1.0 writer (zlib through flate2 used as an encoder only).
 
+use super::{checksum, W};
+use std::io::Write;
+
+pub fn zlib(data: &[u8], level: u32) -> Vec<u8> {
+    let mut e = flate2::write::ZlibEncoder::new(Vec::new(), flate2::Compression::new(level));
+    e.write_all(data).expect("zlib write");
+    e.finish().expect("zlib finish")
+}
+
+#[derive(Clone, Debug)]
+pub struct WoffTable {
+    pub tag: u32,
+    pub data: Vec<u8>,
+    /// ask for compression (honoured only when the compressed form is strictly smaller, as the spec demands)
+    pub compress: bool,
+    pub level: u32,
+}
+
+/// Returns (bytes, per-table "was stored compressed").
+pub fn build_woff(flavor: u32, tables: &[WoffTable], metadata: Option<&[u8]>, private: Option<&[u8]>, sort_dir: bool) -> (Vec<u8>, Vec<bool>) {
+    let n = tables.len();
+    let mut w = W::new();
+    w.u32(0x774F4646).u32(flavor).u32(0).u16(n as u16).u16(0);
+    // totalSfntSize: header + directory + 4-aligned tables
+    let total: usize = 12 + 16 * n + tables.iter().map(|t| (t.data.len() + 3) & !3).sum::<usize>();
+    w.u32(total as u32).u16(1).u16(0);
+    let meta_at = w.len();
+    w.u32(0).u32(0).u32(0).u32(0).u32(0);
+    let dir_at = w.len();
+    w.b.resize(dir_at + 20 * n, 0);
+    let mut order: Vec<usize> = (0..n).collect();
+    if sort_dir {
+        order.sort_by_key(|&i| tables[i].tag);
+    }
+    let mut compressed_flags = vec![false; n];
+    let mut placed = vec![(0u32, 0u32); n];
+    for i in 0..n {
+        let t = &tables[i];
+        w.pad4();
+        let at = w.len();
+        let body = if t.compress {
+            let z = zlib(&t.data, t.level);
+            if z.len() < t.data.len() {
+                compressed_flags[i] = true;
+                z
+            } else {
+                t.data.clone()
+            }
+        } else {
+            t.data.clone()
+        };
+        placed[i] = (at as u32, body.len() as u32);
+        w.bytes(&body);
+    }
+    for (slot, &i) in order.iter().enumerate() {
+        let o = dir_at + 20 * slot;
+        w.set_u32(o, tables[i].tag);
+        w.set_u32(o + 4, placed[i].0);
+        w.set_u32(o + 8, placed[i].1);
+        w.set_u32(o + 12, tables[i].data.len() as u32);
+        w.set_u32(o + 16, checksum(&tables[i].data));
+    }
+    if let Some(m) = metadata {
+        w.pad4();
+        let z = zlib(m, 6);
+        let at = w.len();
+        w.bytes(&z);
+        w.set_u32(meta_at, at as u32);
+        w.set_u32(meta_at + 4, z.len() as u32);
+        w.set_u32(meta_at + 8, m.len() as u32);
+    }
+    if let Some(p) = private {
+        w.pad4();
+        let at = w.len();
+        w.bytes(p);
+        w.set_u32(meta_at + 12, at as u32);
+        w.set_u32(meta_at + 16, p.len() as u32);
+    }
+    let len = w.len();
+    w.set_u32(8, len as u32);
+    (w.b, compressed_flags)
+}
